@@ -3,14 +3,15 @@ package main
 // Result classification, known findings, VIOLATION lines, evidence files.
 
 import (
-	"os/exec"
 	"encoding/json"
 	"fmt"
 	"os"
+	"os/exec"
 	"path/filepath"
 	"sort"
 	"strconv"
 	"strings"
+	"sync"
 	"time"
 )
 
@@ -156,7 +157,7 @@ func (r *Report) finish() int {
 	if r.E != nil {
 		E := r.E
 		for _, o := range E.orphans {
-			violate("contract-target-missing#"+sanitizeLabel(o), map[string]interface{}{"reason": "contract-target-missing", "detail": o}, false)
+			E.markUndecided(o, "the function named by the contract is not in the code")
 		}
 		for _, c := range E.cfgErrors {
 			violate("contract-config#"+sanitizeLabel(c), map[string]interface{}{"reason": "contract-config-error", "detail": c}, false)
@@ -168,6 +169,9 @@ func (r *Report) finish() int {
 					continue
 				}
 				if !E.wasVerified(fc) {
+					continue
+				}
+				if _, und := E.undecided[E.oblPrefix(fc)]; und {
 					continue
 				}
 				for ord := range fc.Loops {
@@ -184,6 +188,11 @@ func (r *Report) finish() int {
 		}
 		for _, n := range E.order {
 			o := E.obligs[n]
+			if i := strings.Index(n, "#"); i > 0 {
+				if _, und := E.undecided[n[:i]]; und {
+					continue // nothing is reported about a function whose contract no longer attaches
+				}
+			}
 			for _, q := range o.Queries {
 				nq++
 				if q.Seconds > 1.0 {
@@ -275,6 +284,17 @@ func (r *Report) finish() int {
 	}
 	cov["samples"] = samples
 	cov["failed_obligations"] = failedNames
+	var undecided []string
+	if r.E != nil {
+		for f, why := range r.E.undecided {
+			undecided = append(undecided, f+": "+why)
+		}
+		sort.Strings(undecided)
+	}
+	cov["undecided_functions"] = undecided
+	for _, u := range undecided {
+		lines = append(lines, fmt.Sprintf("UNDECIDED: property=%s %s — the contract no longer attaches here; nothing is claimed about it on this tree (not counted)", id, u))
+	}
 	cov["known_findings_reproduced"] = knownSeen
 	cov["not_decided_clauses"] = r.Cfg.NotDecided
 	cov["bounded_side_checks"] = r.Cfg.Bounded
@@ -424,15 +444,23 @@ func (r *Report) selfTest(id string) []map[string]interface{} {
 		}
 	}
 	sort.Strings(seeds)
-	for _, patch := range seeds {
+	// three seeded copies are checked at a time (each check already runs its solvers in parallel)
+	results := make([]map[string]interface{}, len(seeds))
+	var wg sync.WaitGroup
+	sem := make(chan struct{}, 3)
+	for si, patch := range seeds {
 		res := map[string]interface{}{"seed": filepath.Base(filepath.Dir(patch))}
+		results[si] = res
 		dir, err := os.MkdirTemp("", "govc-selftest-")
 		if err != nil {
 			res["error"] = err.Error()
-			out = append(out, res)
 			continue
 		}
-		func() {
+		wg.Add(1)
+		sem <- struct{}{}
+		go func(patch, dir string, res map[string]interface{}) {
+			defer wg.Done()
+			defer func() { <-sem }()
 			defer os.RemoveAll(dir)
 			if b, err := exec.Command("cp", "-a", filepath.Dir(repoSrc)+"/src", dir+"/src").CombinedOutput(); err != nil {
 				res["error"] = "copy: " + string(b)
@@ -457,13 +485,34 @@ func (r *Report) selfTest(id string) []map[string]interface{} {
 					}
 				}
 			}
+			var und []string
+			for _, l := range strings.Split(string(b), "\n") {
+				if strings.HasPrefix(l, "UNDECIDED:") {
+					und = append(und, strings.SplitN(strings.TrimPrefix(l, "UNDECIDED: "), " — ", 2)[0])
+				}
+			}
+			if len(und) > 0 {
+				res["undecided"] = und // (a contract that no longer attaches is not a detection)
+			}
 			res["detected"] = len(failed) > 0
 			if len(failed) > 5 {
 				failed = failed[:5]
 			}
 			res["failed_obligations"] = failed
-		}()
-		out = append(out, res)
+		}(patch, dir, res)
 	}
+	wg.Wait()
+	out = append(out, results...)
 	return out
+}
+
+// oblPrefix: the prefix "<pkg>.<function>" of the obligations generated for the function a contract is attached to.
+func (E *Engine) oblPrefix(fc *FuncContract) string {
+	at := fmt.Sprintf("%s:%d", fc.File, fc.Line)
+	for _, rep := range E.verified {
+		if rep.Contract == at {
+			return rep.Name
+		}
+	}
+	return shortPkg(E.pkgOfContract(fc)) + "." + fc.Name
 }
